@@ -11,7 +11,7 @@ import (
 
 func init() {
 	register(&propCheck{id: "C09", needRoot: true, run: checkC09,
-		explanation: "Decided statically: (1) EFFECT frame rule — every field of MutableTree/ImmutableTree that Set or Remove can write (transitively, through the call graph; overlay maps count by content) is re-initialised on every path of Rollback(), with the fast-index overlay allowed to be conditional on the same `fast index disabled` flag that guards all its writers; so no working state introduced by the write API survives a discard; (2) PASS — every success path of nodeDB.DeleteVersionsFrom that issued deletions resets the cached latest version, and if it deleted legacy roots resets the cached legacy boundary; (3) ORDER — LoadVersionForOverwriting is load ≺ range delete ≺ commit ≺ index rebuild, each step only after the previous succeeded. Added in the build round: working tree and lastSaved never alias (FRESH); SaveNode refreshes the cache entry of a re-used node key (PASS-cache-refresh); lastSaved follows every successful commit / load; the index rebuild after a rollback is always reached and writes its label last (ORDER-index-rebuild). NOT decided: indistinguishability from the twin history (node-cache contents, re-used node keys, values)."})
+		explanation: "Decided statically: (1) EFFECT frame rule — every field of MutableTree/ImmutableTree that Set or Remove can write (transitively, through the call graph; overlay maps count by content) is re-initialised on every path of Rollback(), with the fast-index overlay allowed to be conditional on the same `fast index disabled` flag that guards all its writers; so no working state introduced by the write API survives a discard; (2) PASS — every success path of nodeDB.DeleteVersionsFrom that issued deletions resets the cached latest version, and if it deleted legacy roots resets the cached legacy boundary; (3) ORDER — LoadVersionForOverwriting is load ≺ range delete ≺ commit ≺ index rebuild, each step only after the previous succeeded. Added in the build round: working tree and lastSaved never alias (FRESH); SaveNode refreshes the cache entry of a re-used node key (PASS-cache-refresh); lastSaved follows every successful commit / load; the index rebuild after a rollback is always reached and writes its label last (ORDER-index-rebuild). NOT decided: indistinguishability from the twin history (node-cache contents, re-used node keys, values). Rules added in the later seeding rounds (each listed with what it decides in this file's rule table) are described in DESIGN.md §3 \"Third and fourth seeding rounds\" and Appendix C3–C5."})
 }
 
 // skipGuard: If on a load of a field named skipFastStorageUpgrade; returns
